@@ -12,7 +12,9 @@ import (
 	"context"
 	"fmt"
 	"os"
+	"os/exec"
 	"sort"
+	"strconv"
 	"strings"
 	"sync"
 	"time"
@@ -79,31 +81,76 @@ func trace(w *world, scripts [][]string, order []int, gets map[int][]int) []Ev {
 }
 
 type runner struct {
-	c    *common.Ctx
-	pool *pool
+	c         *common.Ctx
+	pool      *pool
+	abandoned int
 }
 
-// one executes a trace in a fresh cache directory and emits the case.
-func (r *runner) one(label string, nkeys int, plans []wplan, mk func(w *world) []Ev) error {
-	w, err := newWorld(r.c, r.pool, nkeys, plans)
-	if err != nil {
-		return err
-	}
-	defer w.cleanup()
-	evs := mk(w)
-	obs, dev, err := runSchedule(w, evs)
-	if err != nil {
-		return fmt.Errorf("%s: %w (trace %v)", label, err, evs)
-	}
-	r.c.Emit(w.input(false, evs), obs)
-	r.c.Count("experiment=" + label)
-	if dev > 0 {
-		r.c.Count("hook-deviations")
-	}
-	for _, g := range obs.Gets {
-		r.c.Count("get=" + g.Kind)
+// abandon records a case dropped because the harness's OWN machinery failed (scheduler timeout on
+// a stalled machine, a child process that could not be started ...). Such a case is never an
+// observation. Only when it keeps happening (the code under test hangs?) the run gives up.
+func (r *runner) abandon(why string) error {
+	r.c.Count("abandoned=" + why)
+	r.abandoned++
+	// give up only when dropping cases is the rule rather than the exception (> 5% of the cases)
+	if r.abandoned > 12 && r.abandoned*20 > r.c.N() {
+		return fmt.Errorf("%d cases abandoned (last: %s): writers do not reach their hooks any more", r.abandoned, why)
 	}
 	return nil
+}
+
+// one executes a trace in a fresh cache directory and emits the case. A case whose machinery
+// timed out is retried twice (after a pause) and then dropped.
+func (r *runner) one(label string, nkeys int, plans []wplan, mk func(w *world) []Ev) error {
+	for attempt := 0; ; attempt++ {
+		w, err := newWorld(r.c, r.pool, nkeys, plans)
+		if err != nil {
+			return err
+		}
+		evs := mk(w)
+		obs, dev, err := runSchedule(w, evs)
+		if err == errAbandoned {
+			w.cleanup()
+			r.c.Count("retried-after-scheduler-timeout")
+			if attempt < 2 {
+				time.Sleep(time.Duration(attempt+1) * 2 * time.Second)
+				continue
+			}
+			return r.abandon("scheduler-timeout")
+		}
+		if err != nil {
+			w.cleanup()
+			return fmt.Errorf("%s: %w (trace %v)", label, err, evs)
+		}
+		r.c.Emit(w.input(false, evs), obs)
+		w.cleanup()
+		r.c.Count("experiment=" + label)
+		if dev > 0 {
+			r.c.Count("hook-deviations")
+		}
+		for _, g := range obs.Gets {
+			r.c.Count("get=" + g.Kind)
+		}
+		return nil
+	}
+}
+
+// runChild runs a free child process to its end under a watchdog. ok=false: the process could not
+// be started, had to be killed by the watchdog, or failed to set itself up - machinery, not an
+// observation.
+func runChild(cmd *exec.Cmd) (ok bool) {
+	if err := cmd.Start(); err != nil {
+		return false
+	}
+	t := time.AfterFunc(stepTimeout, func() { cmd.Process.Kill() })
+	cmd.Wait()
+	if !t.Stop() { // the watchdog fired
+		return false
+	}
+	if cmd.ProcessState != nil && cmd.ProcessState.Exited() && machineryExit(cmd) {
+		return false
+	}
+	return true
 }
 
 func full(n int) [][]string {
@@ -126,6 +173,9 @@ func copyInts(a []int) []int { return append([]int{}, a...) }
 
 // Run generates the cases of C14.
 func Run(c *common.Ctx) error {
+	if ms, err := strconv.Atoi(os.Getenv("C14_STEP_TIMEOUT_MS")); err == nil && ms > 0 {
+		stepTimeout = time.Duration(ms) * time.Millisecond // test knob: provoke scheduler timeouts
+	}
 	installHook()
 	defer func() { file.VerifHook = nil }()
 	ca := common.MakeCert(common.CertOpts{Subject: common.Name("C14 CRL issuer"), CA: true, PathLen: -1,
@@ -443,14 +493,30 @@ func (r *runner) selfKills() error {
 					evs = trace(w, [][]string{wsteps, {}}, []int{0, 0, 0, 0}, nil)
 					var dev int
 					obs, dev, err = runSchedule(w, evs)
-					if err != nil || dev > 0 {
+					if err == errAbandoned {
 						w.cleanup()
-						return fmt.Errorf("selfkill pre-entry: %v dev=%d", err, dev)
+						if err := r.abandon("scheduler-timeout"); err != nil {
+							return err
+						}
+						continue
+					}
+					if err != nil {
+						w.cleanup()
+						return fmt.Errorf("selfkill pre-entry: %v", err)
+					}
+					if dev > 0 {
+						r.c.Count("hook-deviations")
 					}
 				}
 				cmd := childCmd("selfkill", w.root, w.urls[0], w.bundles[1].path, envStep+"="+hookAfter[wsteps[j-1]])
-				cmd.Run() // ends by SIGKILL
-				if cmd.ProcessState == nil || cmd.ProcessState.Success() {
+				if !runChild(cmd) { // normally ends by its own SIGKILL
+					w.cleanup()
+					if err := r.abandon("child-process-failed"); err != nil {
+						return err
+					}
+					continue
+				}
+				if cmd.ProcessState.Success() {
 					r.c.Count("selfkill-child-was-not-killed")
 				}
 				for _, k := range wsteps[:j] {
@@ -498,9 +564,19 @@ func (r *runner) midWrite() error {
 			evs = trace(w, [][]string{wsteps, {}}, []int{0, 0, 0, 0}, nil)
 			var dev int
 			obs, dev, err = runSchedule(w, evs)
-			if err != nil || dev > 0 {
+			if err == errAbandoned {
 				w.cleanup()
-				return fmt.Errorf("midwrite pre-entry: %v dev=%d", err, dev)
+				if err := r.abandon("scheduler-timeout"); err != nil {
+					return err
+				}
+				continue
+			}
+			if err != nil {
+				w.cleanup()
+				return fmt.Errorf("midwrite pre-entry: %v", err)
+			}
+			if dev > 0 {
+				r.c.Count("hook-deviations")
 			}
 		}
 		announce := "created" // kill lands in the write of the content
@@ -513,16 +589,30 @@ func (r *runner) midWrite() error {
 			return err
 		}
 		if err := cmd.Start(); err != nil {
-			return err
+			w.cleanup()
+			if err := r.abandon("child-process-failed"); err != nil {
+				return err
+			}
+			continue
 		}
+		watchdog := time.AfterFunc(stepTimeout, func() { cmd.Process.Kill() })
 		line, _ := bufio.NewReader(out).ReadString('\n')
 		if i%8 == 7 {
 			time.Sleep(time.Duration(r.c.Rand.Intn(300)) * time.Microsecond)
 		}
 		cmd.Process.Kill()
 		cmd.Wait()
+		stalled := !watchdog.Stop()
 		if strings.TrimSpace(line) != announce {
-			r.c.Count("midwrite=child-never-created")
+			// the child ended (or stalled) before it announced the step
+			if stalled || (cmd.ProcessState.Exited() && machineryExit(cmd)) {
+				w.cleanup()
+				if err := r.abandon("child-process-failed"); err != nil {
+					return err
+				}
+				continue
+			}
+			r.c.Count("midwrite=child-never-announced")
 		}
 		// post mortem
 		b := w.bundles[1]
@@ -642,7 +732,11 @@ func (r *runner) freeRun(withLarge bool) error {
 				mu.Lock()
 				defer mu.Unlock()
 				if err != nil {
-					childErr = fmt.Errorf("hammer child: %w", err)
+					if cmd.ProcessState != nil && cmd.ProcessState.ExitCode() == 6 {
+						childErr = fmt.Errorf("hammer child: Set failed: %w", err)
+					} else {
+						r.c.Count("abandoned=child-process-failed") // could not run: fewer writers, nothing else
+					}
 					return
 				}
 				var n int64
